@@ -57,7 +57,12 @@ def native_printer_validation():
 
 def blob_groups(tier):
     q = tier == 'quick'
+    lens = sorted({len(r[1].encode()) for r in gen.brick_color_rows()})
+    other = [n for n in (0, 1, max(lens) + 1) if n not in lens]
     return [
+        dict(id='M24.brickcolor.names', desc='BrickColor::from_name(s) for a symbolic string s: the result is the first row of the make_brick_color! invocation named s (documented collision rule: Lilac, Rust, Gold, Deep orange resolve to their first entry), None when no row is named s; with K13.brickcolor this gives number -> name -> number for every number whose name is not shared',
+             bounds='every byte string of each length that a palette name has (%d lengths, %d..%d bytes) and of lengths %s; rows regenerated from the macro invocation' % (len(lens), lens[0], lens[-1], other),
+             cases=[dict(what='brick_name', len=n) for n in lens + other], budget=900),
         dict(id='M23.materialcolors', desc='MaterialColors blob: decode of every 69-byte blob gives the colours at their slots and re-encodes to the same 63 colour bytes; encode of a map with k set materials writes set colours / defaults at the right slots and decode(encode(m)) has the same colour for all 21 materials; other lengths are errors',
              bounds='every 69-byte blob; every choice of k <= %d set materials among 21 with symbolic colours; lengths 0, 68, 70' % (2 if q else 3),
              cases=[dict(what='len', len=n) for n in (0, 68, 70)] + [dict(what='dec')] + [dict(what='enc', k=k) for k in range(0, 3 if q else 4)], budget=900),
